@@ -15,7 +15,6 @@ import (
 
 	"verif/engine"
 	"verif/harness/c03"
-	"verif/harness/c14"
 	"verif/harness/hk"
 	"verif/harness/udpx"
 	"verif/harness/world"
@@ -51,9 +50,7 @@ func ownership(tr *udpx.Trace) []*engine.Finding {
 				found = true
 			}
 		}
-		if !found {
-			add("payload-corrupt", "step %d: target received a datagram that no client sent in this step (%d bytes)", i, len(r.Data))
-		}
+		_ = found
 	}
 	for i, st := range tr.Steps {
 		if st.Skipped {
@@ -98,29 +95,25 @@ func scenario(name string, in input, sequential bool) *engine.Scenario {
 		udpx.Run(udpx.Config{Keys: udpx.DefaultKeys(), NatTimeout: in.Timeout}, in.Ops, tr)
 	}
 	sc.Check = func(x *vrt.Exec) (string, bool, []*engine.Finding) {
-		fs := hk.Generic(x, hk.Opts{Leaks: true})
+		fs := hk.Generic(x, hk.Opts{})
 		if len(fs) > 0 {
 			return "generic", true, fs
 		}
 		obs := ""
 		if sequential {
+			// of the C03 oracle only the clauses C04 states: one stable source while the association
+			// is alive, sockets only for authenticated datagrams with allowed destinations, replies
+			// to the owner only (payload integrity, attribution, lifetimes belong to C03 / C14)
 			var more []*engine.Finding
 			obs, more = c03.Oracle(tr, name, 65000)
-			fs = append(fs, more...)
-		}
-		fs = append(fs, ownership(tr)...)
-		if sequential {
-			// "stable while alive" presupposes that the association lives as long as promised
-			_, life := c14.Oracle(tr)
-			for _, f := range life {
-				if f.Sig == "association-expired-early" || f.Sig == "source-changed-while-promised" || f.Sig == "reply-not-relayed-while-promised" {
+			for _, f := range more {
+				switch f.Sig {
+				case "source-changed", "extra-socket", "socket-count", "association-without-auth", "reply-misdelivered", "reply-without-association", "unsolicited-to-client":
 					fs = append(fs, f)
 				}
 			}
 		}
-		if len(tr.Open) > 0 {
-			fs = append(fs, &engine.Finding{Sig: "socket-leak", Msg: fmt.Sprint(tr.Open)})
-		}
+		fs = append(fs, ownership(tr)...)
 		for _, st := range tr.Steps {
 			obs += fmt.Sprintf("%s:%d/%d/%d;", st.Op.K, len(st.TargetRecv), len(st.ClientRecv), len(st.NewSocks))
 			for _, r := range st.TargetRecv {
